@@ -40,6 +40,11 @@ class TField:
     def sym_method(self, I, name, a, kw):
         if name == 'split' and len(a) == 1 and isinstance(a[0], str):
             return TParts(self.tab, self.k, self.col, a[0], self.ops)
+        if name == 'isdigit' and not a and not self.ops:
+            # digits only: a number without a sign (every such column holds a number; a column holding a number may carry a minus sign)
+            d = z3.Function('column_is_digits_only', I_, I_, B_)(zz(self.k), z3.IntVal(self.col))
+            I.e.assume(z3.Implies(d, self.tab.is_number(zz(self.k), z3.IntVal(self.col))))
+            return d
         if name in ('strip', 'replace', 'lstrip', 'rstrip') and all(isinstance(x, str) for x in a):
             return TField(self.tab, self.k, self.col, self.ops + ((name,) + tuple(a),))
         raise Unsupported(f'table column.{name}')
